@@ -76,9 +76,9 @@ func SpecC12() simkit.Spec {
 		Exec: execTree(Oracles{}, ObsOracles{C12: true}, func(w *World, o *Observer, r *simkit.Run) bool {
 			return r != nil
 		}),
-		Rule: treeRule + "delivery picks range over the whole remaining set (children before parents, sibling orphans); oracle after every delivery: a delivered block is stored iff all its ancestors were delivered, never a panic, valid blocks never rejected; distinct = hash of the full trace",
+		Rule: treeRule + "delivery picks range over the whole remaining set (children before parents, sibling orphans); oracle after every delivery: a delivered block is stored iff all its ancestors were delivered, never a panic, valid blocks never rejected, and the best block / height index equal the fork-choice over the connected blocks (so the result does not depend on the arrival order); distinct = hash of the full trace",
 		Components: nodeComponents, FaultKinds: []string{"fault.reorder", "fault.duplicate"},
-		Probes: []string{"probe.orphan", "probe.sibling_orphans", "probe.three_orphans_one_parent"},
+		Probes: []string{"probe.orphan", "probe.sibling_orphans", "probe.three_orphans_one_parent", "probe.reorg"},
 	}
 }
 
@@ -110,6 +110,6 @@ func SpecC15() simkit.Spec {
 		Prop: "C15", Gen: genTree(4, 6, 24, 4, 5, 2, false), NewPlan: func() any { return &TreePlan{} },
 		Exec: execTree(Oracles{C15: true}, ObsOracles{}, func(w *World, o *Observer, r *simkit.Run) bool { return true }),
 		Rule: treeRule + "oracle: for every produced block the validator the node schedules for (parent, timestamp) equals the reference schedule (tally of votes minus vetoes along the branch at the parent checkpoint, >= minimum, top ten by votes then key, else federation; round-robin by slot); distinct = hash of the full trace",
-		Components: nodeComponents, Probes: []string{"probe.reward_block"},
+		Components: nodeComponents, Probes: []string{"probe.reward_block", "probe.schedule_queries"},
 	}
 }
